@@ -81,8 +81,15 @@ def random_table(rng, nmodels=None, shared_identities=True, altlocs=True, close_
             if close_pairs and rng.random() < 0.3:
                 a = rng.choice(atoms)
                 other = rng.choice([n for n in ATOM_NAMES if all(n != x["name"] for x in atoms)])
-                d = rng.choice([0.2, 0.3, 0.7, 0.9])
-                atoms.append({"name": other, "alt": None, "xyz": [clamp(a["xyz"][0] - d) if a["xyz"][0] > 9000 else clamp(a["xyz"][0] + d), a["xyz"][1], a["xyz"][2]], "occ": rng.choice([0.0, 0.3, 0.5, 0.8, 1.0]),
+                d = rng.choice([0.2, 0.3, 0.7, 0.9, "just-outside", "just-inside"])
+                if isinstance(d, str):
+                    # offsets (0.3, 0.4, dz): 0.5009 / 0.5004 A apart (both atoms are to be kept) or 0.4992 / 0.4996 A
+                    dz = rng.choice([0.03, 0.02]) if d == "just-outside" else rng.choice([-0.399, -0.3995])
+                    off = (0.3, 0.4, dz) if d == "just-outside" else (0.3, 0.0, dz)
+                    xyz = [clamp(a["xyz"][k] - off[k]) if a["xyz"][k] > 9000 else clamp(a["xyz"][k] + off[k]) for k in range(3)]
+                else:
+                    xyz = [clamp(a["xyz"][0] - d) if a["xyz"][0] > 9000 else clamp(a["xyz"][0] + d), a["xyz"][1], a["xyz"][2]]
+                atoms.append({"name": other, "alt": None, "xyz": xyz, "occ": rng.choice([0.0, 0.3, 0.5, 0.8, 1.0]),
                               # the close neighbour may exist in some models only
                               "only_models": (None if rng.random() < 0.5 else [k for k in range(1, nmodels + 1) if rng.random() < 0.5] or [1])})
                 if rng.random() < 0.3:
